@@ -494,10 +494,15 @@ fn run_service_in(case: &Case, dir: &std::path::Path, st: &mut ModelState, o: &m
                 return;
             }
             let after = observe(&mut svc, &st.cur, &rows);
-            if after.memory != after.persisted.clone().as_object().map(|m| { let mut m = m.clone(); m.remove("model"); Value::Object(m) }).unwrap_or(Value::Null) {
+            let (persisted_body, persisted_text) = split_model(after.persisted.clone());
+            if after.memory != persisted_body || after.memory_text != persisted_text {
                 o.violation(
                     "memory-and-persisted-model-differ-after-accepted-version",
-                    format!("{}: {}", at, first_diff(&after.memory, &after.persisted, "").unwrap_or_default()),
+                    format!(
+                        "{}: {}",
+                        at,
+                        first_diff(&after.memory, &persisted_body, "").unwrap_or_else(|| "the model text differs".to_string())
+                    ),
                 );
             }
             if after.memory_text != cand.text {
